@@ -181,7 +181,7 @@ func (a *Adv) MembershipProbes() int {
 				if revisedEarlier[cur.ID] {
 					suffix = "/after-in-block-revision"
 				}
-				for _, name := range []string{"leaf-index^1", "leaf-index^2^35", "proof-bitflip", "proof-truncated", "other-elements-position", "renter-address"} {
+				for _, name := range []string{"leaf-index^1", "leaf-index^2^35", "proof-bitflip", "proof-truncated", "other-elements-position", "renter-address", "relabelled-ephemeral"} {
 					blk := CloneBlock(a.Honest)
 					x := &blk.V2.Transactions[ti]
 					pe := ref.get(x)
@@ -212,6 +212,9 @@ func (a *Adv) MembershipProbes() int {
 						if !found {
 							continue
 						}
+					case "relabelled-ephemeral":
+						// contracts are never parents "created earlier in this block": no leaf index, no proof, no membership
+						pe.StateElement = types.StateElement{LeafIndex: types.UnassignedLeafIndex}
 					case "renter-address":
 						// a field no revision/resolution rule constrains: only membership can refuse it
 						pe.V2FileContract.RenterOutput.Address = otherAddr(pe.V2FileContract.RenterOutput.Address)
